@@ -21,7 +21,7 @@ def hist_of(*key):
     h = 0
     for k in key:
         h = (h * 131 + (int(k) if not isinstance(k, str) else sum(map(ord, k)))) % 1000003
-    return h % 8
+    return h % 10
 
 
 def empty_via_history(h, init, signed, n, f, **cfg):
@@ -72,6 +72,8 @@ def mk(codes, signed, n, f, dirty_ok=False, **cfg):
     h = hist_of(n, f, int(signed), len(codes), *[c % 97 for c in codes[:4]]) if n <= 60 else 0
     if h in (6, 7) and ('op_out' in cfg or 'op_out_like' in cfg):
         h = 1       # indexing / flatten deep-copy the configuration, so an op_out target would (rightly) be a copy: not this route
+    if h in (8, 9):
+        return primed(h, codes, signed, n, f, **cfg)
     if h in (6, 7):
         lo = -(1 << (n - 1)) if signed else 0
         pad = [lo, (1 << (n - 1)) - 1 if signed else (1 << n) - 1]
@@ -99,6 +101,44 @@ def mk(codes, signed, n, f, dirty_ok=False, **cfg):
     x = empty_via_history(h, np.zeros(len(codes), dtype=int), signed, n, f, **cfg)
     _dirty(x, h if dirty_ok else 0, signed, n)
     x.set_val(arr, raw=True)
+    return x
+
+
+def primed(h, codes, signed, n, f, **cfg):
+    """an object that has been *used* before it holds the codes under test: it is born with other codes in a neighbouring format,
+    every kind of read-only operation is applied to it (whatever an implementation may remember about an object is remembered now),
+    its format is changed in place (8: resize(n_word=, n_int=) — the fraction length follows; 9: resize(n_frac=)) and the codes are
+    written into the existing buffer element by element. The properties speak about the stored value, not about the object's past."""
+    lo = -(1 << (n - 1)) if signed else 0
+    hi = (1 << (n - 1)) - 1 if signed else (1 << n) - 1
+    f0 = f + 1 if h == 8 else f - 1
+    other = [lo if k % 2 else hi - (hi > 4) * 4 for k in range(len(codes))]
+    init = other[0] if len(codes) == 1 else np.array(other, dtype=np.int64)
+    x = Fxp(init, signed, n, f0, raw=True, **cfg)
+    def use():
+        old_out = (x.config.op_out, x.config.op_out_like)
+        x.config.op_out, x.config.op_out_like = None, None
+        for g in (lambda: ~x, lambda: x & 1, lambda: x | 1, lambda: x >> 1, lambda: x << 1, lambda: x.bin(), lambda: x.hex(),
+                  lambda: x.get_val(), lambda: x.astype(int), lambda: x.uraw(), lambda: x < 0, lambda: x == x, lambda: x + x, lambda: x * x,
+                  lambda: x // x if lo else None, lambda: np.sum(x), lambda: np.max(x), lambda: x.like(x), lambda: bool(x) if x.ndim == 0 else None):
+            try:
+                g()
+            except Exception:
+                pass
+        x.config.op_out, x.config.op_out_like = old_out
+    use()
+    if h == 8:
+        x.resize(n_word=n, n_int=n - f - (1 if signed else 0))
+    else:
+        x.resize(n_frac=f)
+    use()           # ... and again in the final format, still with the other codes
+    x.reset()
+    if len(codes) == 1:
+        x.set_val(codes[0], raw=True, index=())
+    else:
+        for i, c in enumerate(codes):
+            x.set_val(c, raw=True, index=i)
+    assert (x.signed, x.n_word, x.n_frac) == (signed, n, f) and codes_of(x) == list(codes), 'priming did not deliver the operand'
     return x
 
 
